@@ -11,11 +11,19 @@ if [ ! -d "$WT" ]; then git -C /repo worktree add --detach "$WT" HEAD >/dev/null
 cd "$WT" && git checkout -q --detach "$(git -C /repo rev-parse HEAD)" && git checkout -q -- . && rm -f tests/seed_demo.rs
 if ! git apply --check "$SRC/patch.diff" 2>/dev/null; then echo "RESULT $ID: patch does not apply"; exit 1; fi
 git apply "$SRC/patch.diff"
+# optional first line of the demo: // cargo-args: [+nightly] --features <list>
+CARGS=$(head -1 "$SRC/demo.rs" | sed -n 's|^// cargo-args: *||p')
+TOOL=""; case "$CARGS" in +nightly*) TOOL="+nightly"; CARGS="${CARGS#+nightly}";; esac
+if [ -n "$CARGS$TOOL" ]; then
+  SUITE_CFG=$(cargo $TOOL test --offline $CARGS 2>&1 | grep -E "^test result" | awk '{p+=$4; f+=$6} END {print p" passed "f" failed"}')
+  echo "suite with change in configuration [$TOOL $CARGS]: $SUITE_CFG"
+  case "$SUITE_CFG" in *" 0 failed") ;; *) echo "REJECTED $ID (suite fails in target configuration)"; git checkout -q -- .; exit 1;; esac
+fi
 SUITE=$(cargo test --offline 2>&1 | grep -E "^test result" | awk '{p+=$4; f+=$6} END {print p" passed "f" failed"}')
 cp "$SRC/demo.rs" tests/seed_demo.rs
-DEMO_WITH=$(cargo test --offline --test seed_demo 2>&1 | grep -E "^test result" | head -1)
+DEMO_WITH=$(cargo $TOOL test --offline $CARGS --test seed_demo 2>&1 | grep -E "^test result" | head -1)
 git checkout -q -- . 
-DEMO_WITHOUT=$(cargo test --offline --test seed_demo 2>&1 | grep -E "^test result" | head -1)
+DEMO_WITHOUT=$(cargo $TOOL test --offline $CARGS --test seed_demo 2>&1 | grep -E "^test result" | head -1)
 rm -f tests/seed_demo.rs
 echo "RESULT $ID: suite with change: $SUITE | demo with change: $DEMO_WITH | demo without: $DEMO_WITHOUT"
 OK=1
